@@ -3,7 +3,8 @@ simnode process per lifetime, parse the event logs."""
 import json, os, shutil, subprocess, hashlib, time
 
 VERIF = os.path.dirname(os.path.dirname(os.path.abspath(__file__)))
-SIMNODE = os.path.join(VERIF, "simnode", "target", "debug", "simnode")
+# SIMNODE_BIN: run a side copy of the node (long explorations that must not see a later rebuild)
+SIMNODE = os.environ.get("SIMNODE_BIN") or os.path.join(VERIF, "simnode", "target", "debug", "simnode")
 SHM = "/dev/shm/snelsim" if os.path.isdir("/dev/shm") else os.path.join(VERIF, ".scratch")
 
 DEFAULT_CFG = {
